@@ -15,21 +15,21 @@ def Outcome.Unchanged (o : Outcome) (s : State) : Prop := o.state.db = s.db
 def Outcome.CommittedFrom (o : Outcome) (st : RunSt) (log : Log) : Prop :=
   o.state = { db := st.db, seq := st.seq } ∧ o.resp = { log := some log }
 
-theorem rolledBack_unchanged (s : State) (st : RunSt) (h : String) (f : Option Fault) (r : Resp) :
+theorem rolledBack_unchanged (s : State) (st : RunSt) (h : String) (f : Faults) (r : Resp) :
     (rolledBack s st h f r).Unchanged s := rfl
 
-theorem rolledBack_resp (s : State) (st : RunSt) (h : String) (f : Option Fault) (r : Resp) :
+theorem rolledBack_resp (s : State) (st : RunSt) (h : String) (f : Faults) (r : Resp) :
     (rolledBack s st h f r).resp = r := rfl
 
-theorem failedAttempt_unchanged (s : State) (st : RunSt) (h : String) (f : Option Fault) (e : Err) :
+theorem failedAttempt_unchanged (s : State) (st : RunSt) (h : String) (f : Faults) (e : Err) :
     (failedAttempt s st h f e).Unchanged s := by
   unfold failedAttempt; split <;> rfl
 
-theorem failedAttempt_isError (s : State) (st : RunSt) (h : String) (f : Option Fault) (e : Err) :
+theorem failedAttempt_isError (s : State) (st : RunSt) (h : String) (f : Faults) (e : Err) :
     (failedAttempt s st h f e).resp.err.isSome = true := by
   unfold failedAttempt; split <;> rfl
 
-theorem commitOrFail_cases (s : State) (st : RunSt) (h : String) (f : Option Fault) (cf : Bool) (log : Log) :
+theorem commitOrFail_cases (s : State) (st : RunSt) (h : String) (f : Faults) (cf : Bool) (log : Log) :
     ((commitOrFail s st h f cf log).Unchanged s ∧ (commitOrFail s st h f cf log).resp.err.isSome = true) ∨
     (commitOrFail s st h f cf log).CommittedFrom st log := by
   unfold commitOrFail
@@ -39,7 +39,7 @@ theorem commitOrFail_cases (s : State) (st : RunSt) (h : String) (f : Option Fau
     · left; exact ⟨rfl, rfl⟩
     · right; exact ⟨rfl, rfl⟩
 
-theorem finish_cases (s : State) (st : RunSt) (h : String) (f : Option Fault) (cf dry : Bool) (log : Log) :
+theorem finish_cases (s : State) (st : RunSt) (h : String) (f : Faults) (cf dry : Bool) (log : Log) :
     ((finish s st h f cf dry log).Unchanged s ∧
       ((finish s st h f cf dry log).resp.err.isSome = true ∨ dry = true)) ∨
     (dry = false ∧ (finish s st h f cf dry log).CommittedFrom st log) := by
@@ -60,16 +60,16 @@ inductive Ending (strict : Bool) (s : State) (op : Op) (o : Outcome) : Prop wher
       (why : o.resp.err.isSome = true ∨ o.resp.hit = true ∨ op.dry = true)
   /-- committed: `runLog` ran to completion on a transaction started from the
       committed tables and its tables were installed; success, not a hit, not a dry run -/
-  | committed (st0 st : RunSt) (log : Log) (hn : String) (f : Option Fault) (n : Nat)
+  | committed (st0 st : RunSt) (log : Log) (hn : String) (f : Faults) (n : Nat)
       (hd : op.dry = false) (h0 : st0.db = s.db) (hs0 : SeqLe s.seq st0.seq)
       (hrun : run op.now hn f (runLog strict op.kind op.ik op.ihash op.sv n) st0 = (.ok log, st))
       (h : o.CommittedFrom st log)
 
-theorem failedAttempt_seq (s : State) (st : RunSt) (h : String) (f : Option Fault) (e : Err) :
+theorem failedAttempt_seq (s : State) (st : RunSt) (h : String) (f : Faults) (e : Err) :
     (failedAttempt s st h f e).state.seq = st.seq := by
   unfold failedAttempt; split <;> rfl
 
-theorem finish_seq_unchanged (s : State) (st : RunSt) (h : String) (f : Option Fault) (cf dry : Bool) (log : Log)
+theorem finish_seq_unchanged (s : State) (st : RunSt) (h : String) (f : Faults) (cf dry : Bool) (log : Log)
     (hu : (finish s st h f cf dry log).Unchanged s) : (finish s st h f cf dry log).state.seq = st.seq := by
   unfold finish at *
   cases dry with
@@ -82,20 +82,20 @@ theorem finish_seq_unchanged (s : State) (st : RunSt) (h : String) (f : Option F
     · split <;> rfl
 
 /-- `recordedOutcome` never touches the state, and turns an error into an error or a hit. -/
-theorem recordedOutcome_state (op : Op) (f : Option Fault) (s : State) (n : Nat) (o : Outcome) :
+theorem recordedOutcome_state (op : Op) (f : Faults) (s : State) (n : Nat) (o : Outcome) :
     (recordedOutcome op f s n o).state = o.state := by
   unfold recordedOutcome
   repeat' split
   all_goals rfl
 
-theorem recordedOutcome_why (op : Op) (f : Option Fault) (s : State) (n : Nat) (o : Outcome)
+theorem recordedOutcome_why (op : Op) (f : Faults) (s : State) (n : Nat) (o : Outcome)
     (h : o.resp.err.isSome = true) :
     (recordedOutcome op f s n o).resp.err.isSome = true ∨ (recordedOutcome op f s n o).resp.hit = true := by
   unfold recordedOutcome
   repeat' split
   all_goals first | exact Or.inl h | exact Or.inl rfl | exact Or.inr rfl
 
-theorem failedThenRecorded_unchanged (op : Op) (s : State) (st : RunSt) (h : String) (f : Option Fault) (e : Err) :
+theorem failedThenRecorded_unchanged (op : Op) (s : State) (st : RunSt) (h : String) (f : Faults) (e : Err) :
     (failedThenRecorded op s st h f e).Unchanged s ∧ (failedThenRecorded op s st h f e).state.seq = st.seq ∧
     ((failedThenRecorded op s st h f e).resp.err.isSome = true ∨ (failedThenRecorded op s st h f e).resp.hit = true) := by
   unfold failedThenRecorded
@@ -106,47 +106,77 @@ theorem failedThenRecorded_unchanged (op : Op) (s : State) (st : RunSt) (h : Str
       rw [recordedOutcome_state]; exact failedAttempt_unchanged ..
     · rw [recordedOutcome_state]; exact failedAttempt_seq ..
 
-theorem retry_ending (strict : Bool) (op : Op) (f : Option Fault) (cf : Bool) (s : State) (st : RunSt)
-    (hst : SeqLe s.seq st.seq) :
-    Ending strict s op (retry strict op f cf s st) := by
-  unfold retry
+theorem fetchAfterConflict_ending (op : Op) (f : Faults) (s : State) (seq : Seqs) (n : Nat) (trace : List String) :
+    (fetchAfterConflict op f s seq n trace).state = { s with seq := seq } ∧
+    ((fetchAfterConflict op f s seq n trace).resp.err.isSome = true ∨
+     (fetchAfterConflict op f s seq n trace).resp.hit = true) := by
+  unfold fetchAfterConflict
+  repeat' split
+  all_goals first | exact ⟨rfl, Or.inl rfl⟩ | exact ⟨rfl, Or.inr rfl⟩
+
+/-- What one `runTx` can answer. -/
+theorem runTx_cases (strict : Bool) (op : Op) (f : Faults) (cf : Bool) (s : State) (i tx : Nat) (seq : Seqs) (n : Nat)
+    (trace : List String) (hseq : SeqLe s.seq seq) :
+    (∃ e seq' n' trace', runTx strict op f cf s i tx seq n trace = .failed e seq' n' trace' ∧ SeqLe s.seq seq') ∨
+    (∃ o, runTx strict op f cf s i tx seq n trace = .done o ∧ Ending strict s op o) := by
+  unfold runTx
+  simp only
   split
-  · exact .unchanged rfl hst (Or.inl rfl)
+  · exact Or.inl ⟨_, _, _, _, rfl, hseq⟩
   · split
     · rename_i e st1 heq
-      obtain ⟨hu, hsq, hw⟩ := failedThenRecorded_unchanged op s st1 "t2" f e
-      refine .unchanged hu ?_ (hw.elim Or.inl (fun h => Or.inr (Or.inl h)))
-      rw [hsq]
-      have := run_seq op.now "t2" f (runLog strict op.kind op.ik op.ihash op.sv 2)
-        { db := s.db, seq := st.seq, n := st.n + 1, trace := st.trace ++ ["root BeginTX"] }
-      rw [heq] at this
-      exact SeqLe.trans hst this
+      have hs := run_seq op.now ("t" ++ toString tx) f (runLog strict op.kind op.ik op.ihash op.sv i)
+        { db := s.db, seq := seq, n := n + 1, trace := trace ++ ["root BeginTX"] }
+      rw [heq] at hs
+      split
+      · exact Or.inr ⟨_, rfl, .unchanged rfl (SeqLe.trans hseq hs) (Or.inl rfl)⟩
+      · exact Or.inl ⟨_, _, _, _, rfl, SeqLe.trans hseq hs⟩
     · rename_i log st1 heq
-      have hseq := run_seq op.now "t2" f (runLog strict op.kind op.ik op.ihash op.sv 2)
-        { db := s.db, seq := st.seq, n := st.n + 1, trace := st.trace ++ ["root BeginTX"] }
-      rw [heq] at hseq
-      simp only
-      rcases finish_cases s st1 "t2" f cf op.dry log with h | h
-      · have hsq := finish_seq_unchanged _ _ _ _ _ _ _ h.1
+      have hs := run_seq op.now ("t" ++ toString tx) f (runLog strict op.kind op.ik op.ihash op.sv i)
+        { db := s.db, seq := seq, n := n + 1, trace := trace ++ ["root BeginTX"] }
+      rw [heq] at hs
+      by_cases hd : op.dry = true
+      · rw [if_pos hd]
+        exact Or.inr ⟨_, rfl, .unchanged rfl (SeqLe.trans hseq hs) (Or.inr (Or.inr hd))⟩
+      · rw [if_neg hd]
         split
-        · rename_i herr
-          refine .unchanged ?_ ?_ ((recordedOutcome_why _ _ _ _ _ herr).elim Or.inl (fun x => Or.inr (Or.inl x)))
-          · show (recordedOutcome op f s (st1.n + 2) (finish s st1 "t2" f cf op.dry log)).state.db = s.db
-            rw [recordedOutcome_state]; exact h.1
-          · rw [recordedOutcome_state, hsq]; exact SeqLe.trans hst hseq
-        · refine .unchanged h.1 ?_ (h.2.elim Or.inl (fun d => Or.inr (Or.inr d)))
-          rw [hsq]; exact SeqLe.trans hst hseq
-      · have hnoerr : ¬ ((finish s st1 "t2" f cf op.dry log).resp.err.isSome = true) := by
-          rw [h.2.2]; exact Bool.false_ne_true
-        rw [if_neg hnoerr]
-        exact .committed { db := s.db, seq := st.seq, n := st.n + 1, trace := st.trace ++ ["root BeginTX"] }
-          st1 log "t2" f 2 h.1 rfl hst heq h.2
+        · exact Or.inl ⟨_, _, _, _, rfl, SeqLe.trans hseq hs⟩
+        · split
+          · exact Or.inl ⟨_, _, _, _, rfl, SeqLe.trans hseq hs⟩
+          · refine Or.inr ⟨_, rfl, .committed _ st1 log ("t" ++ toString tx) f i ?_ rfl hseq heq ⟨rfl, rfl⟩⟩
+            cases hdd : op.dry
+            · rfl
+            · exact absurd hdd hd
+
+theorem retryLoop_ending (strict : Bool) (op : Op) (f : Faults) (cf : Bool) (s : State) (fuel i tx : Nat) (seq : Seqs)
+    (n : Nat) (trace : List String) (hseq : SeqLe s.seq seq) :
+    Ending strict s op (retryLoop strict op f cf s fuel i tx seq n trace) := by
+  induction fuel generalizing i tx seq n trace with
+  | zero => exact .unchanged rfl hseq (Or.inl rfl)
+  | succ fuel ih =>
+    unfold retryLoop
+    rcases runTx_cases strict op f cf s i tx seq n trace hseq with ⟨e, seq', n', trace', heq, hs'⟩ | ⟨o, heq, ho⟩
+    · rw [heq]
+      simp only
+      split
+      · exact ih _ _ _ _ _ hs'
+      · split
+        · obtain ⟨hst, hw⟩ := fetchAfterConflict_ending op f s seq' (n' + 1) trace'
+          refine .unchanged ?_ ?_ (hw.elim Or.inl (fun h => Or.inr (Or.inl h)))
+          · show (fetchAfterConflict op f s seq' (n' + 1) trace').state.db = s.db
+            rw [hst]
+          · rw [hst]; exact hs'
+        · refine .unchanged ?_ ?_ ((recordedOutcome_why op f s (n' + 1) _ rfl).elim Or.inl (fun h => Or.inr (Or.inl h)))
+          · show (recordedOutcome op f s (n' + 1) _).state.db = s.db
+            rw [recordedOutcome_state]
+          · rw [recordedOutcome_state]; exact hs'
+    · rw [heq]; exact ho
 
 /-- Every operation, with or without an injected fault, either leaves the
     committed tables untouched (and then answers with an error, a hit, or is a dry
     run) or is a committed, successful, non-dry-run, non-hit write whose tables
     are exactly those of a complete `runLog` on the committed tables. -/
-theorem forgeLog_ending (strict : Bool) (op : Op) (f : Option Fault) (cf : Bool) (s : State) :
+theorem forgeLog_ending (strict : Bool) (op : Op) (f : Faults) (cf : Bool) (s : State) :
     Ending strict s op (forgeLog strict op f cf s) := by
   unfold forgeLog
   split
@@ -172,7 +202,7 @@ theorem forgeLog_ending (strict : Bool) (op : Op) (f : Option Fault) (cf : Bool)
         have hseq := run_seq op.now "t1" f (runLog strict op.kind op.ik op.ihash op.sv 1) st1
         rw [heq2] at hseq
         split
-        · exact retry_ending strict op f cf s _ (SeqLe.trans h1 hseq)
+        · exact retryLoop_ending strict op f cf s _ _ _ _ _ _ (SeqLe.trans h1 hseq)
         · obtain ⟨hu, hsq, hw⟩ := failedThenRecorded_unchanged op s st2 "t1" f e
           refine .unchanged hu ?_ (hw.elim Or.inl (fun h => Or.inr (Or.inl h)))
           rw [hsq]; exact SeqLe.trans h1 hseq
